@@ -69,11 +69,7 @@ def eligible(prog, caller, callee, max_blocks):
         return False
     if callee.abi not in (None, 'Rust'):
         return False
-    # direct recursion in the callee
-    for b in callee.calls():
-        c, e = core.resolve_call(prog, callee, b.term)
-        if e and len(c) == 1 and c[0].key == callee.key:
-            return False
+    # (a callee that calls itself is spliced like any other: the self-call it contains stays a call, at most `depth` levels are unfolded)
     return True
 
 
